@@ -501,6 +501,25 @@ func pageGeom(p *bo.PageBox) PageGeom {
 	}
 	g.FirstWord = first
 	g.MaxLineBottom = maxBottom
+	for _, c := range p.Children {
+		if fa, ok := c.(*bo.FootnoteAreaBox); ok && len(fa.Children) != 0 {
+			g.FootnoteTop = float64(fa.PositionY)
+		}
+	}
+	if len(p.Children) > 0 {
+		root := p.Children[0]
+		for _, d := range bo.Descendants(root) {
+			if d == root || !bo.BlockT.IsInstance(d) || d.Box().Element == nil || !d.Box().IsInNormalFlow() {
+				continue
+			}
+			if tag := d.Box().Element.Data; tag == "html" || tag == "body" {
+				continue // stretched to the page
+			}
+			if b := float64(d.Box().PositionY + d.Box().MarginHeight()); b > g.MaxBlockBottom {
+				g.MaxBlockBottom = b
+			}
+		}
+	}
 	return g
 }
 
